@@ -113,7 +113,7 @@ def main():
                 jobs.append((kind, prop, patch, ','.join(props) if (props and prop == 'indep') else None))
     if a.kind in ('seeded', 'all'):
         for d in sorted(glob.glob(os.path.join(VERIF, 'seeded', '*'))):
-            prop = os.path.basename(d)
+            prop = os.path.basename(d).split('-')[0]   # seeded/C07-2 is a second change for C07
             if props and prop not in props:
                 continue
             patch = os.path.join(d, 'patch.diff')
